@@ -44,7 +44,17 @@ def known_keys():
 def recipe(c: Check):
     c.build(["Properties/C01.vo", "Corr/C01.vo"], harness=["c01"], units=["t5"])
     c.obligations("C01")
-    st = c.run_driver("limit", q(c.tier, 600, 6000), shards=q(c.tier, 4, 12))
+    # the real-clock traces (code 8) are runtime residue: timestamps are taken after the act time, a descheduled
+    # goroutine on a loaded machine shifts them; re-run on the same seed, report only if it reproduces every time
+    for attempt in range(3):
+        n0, b0 = len(c.failures), len(c.broken)
+        st = c.run_driver("limit", q(c.tier, 600, 6000), shards=q(c.tier, 4, 12))
+        new = c.failures[n0:]
+        if attempt < 2 and new and len(c.broken) == b0 and all(f.get("key") == "mismatch:limit:code8" for f in new):
+            c.notes.append("limit driver attempt %d: real-clock bound missed under load; re-running" % (attempt + 1))
+            del c.failures[n0:]
+            continue
+        break
     cc = c.cov.get("coq_counters", {}).get("limit", {})
     if st and c.harness_ok and (cc.get("NSPLIT", 0) == 0 or cc.get("NWAITING", 0) == 0):
         c.broken.append(dict(kind="sanity", name="limit driver never reached the split-write / waiting-reservation branches",
@@ -54,8 +64,13 @@ def recipe(c: Check):
     # the real vhost https / tcpmux muxers with a 300 ms sniffing timeout, used before and after it elapsed
     st = c.run_driver("vhostmux", q(c.tier, 12, 60), shards=1, timeout=120)
     cc = c.cov.get("coq_counters", {}).get("vhostmux", {})
-    if st and cc.get("NAGED", 0) == 0:
-        c.broken.append(dict(kind="sanity", name="vhostmux driver never used a routed connection older than the muxer timeout", detail=str(cc)))
+    if st and (cc.get("NAGED", 0) == 0 or cc.get("NFIRST", 0) == 0):
+        c.broken.append(dict(kind="sanity", name="vhostmux driver never used a routed connection older than the muxer timeout / never let the backend speak first", detail=str(cc)))
+    # tcpMux on: write-and-close against a receiver that drains through a 128 KB/s limit (both directions)
+    st = c.run_driver("drain", 0, shards=1, timeout=q(c.tier, 120, 300))
+    cc = c.cov.get("coq_counters", {}).get("drain", {})
+    if st and cc.get("NDRAIN", 0) < 2:
+        c.broken.append(dict(kind="sanity", name="drain driver did not complete both directions", detail=str(cc)))
     # timing observations (close seen within the bound, configuration up within 8 s) are runtime residue: a failure of
     # that kind (or any failure confined to kcp configurations: UDP on a loaded loopback) is re-run on the same seed and reported only if it reproduces every time (DESIGN section 3)
     timing = ("mismatch:tunnel:code27", "tunnel-setup:")
@@ -93,7 +108,9 @@ def recipe(c: Check):
              "proxy-protocol header bytes predicted from the user's source address, stream equality, complete-then-EOF, close seen within "
              "2.5 s, elapsed time vs limit. vhostmux driver: real vhost.NewHTTPSMuxer / tcpmux.NewHTTPConnectTCPMuxer (passthrough on/off) with a 300 ms "
              "sniffing timeout, head sent in random segments, routed connection used at age 0 and at age > timeout: bytes read from it compared "
-             "with the SharedConn model, writes towards the user must succeed. udpclose driver: Close() calls reaching the underlying work "
+             "with the SharedConn model, writes towards the user must succeed; tcpmux with a backend that speaks first and the CONNECT answer's write held back 0/120 ms: the user's "
+             "stream must be answer ++ greeting. drain driver: tcpMux on (keepalive 1 s), 600 000 bytes written and closed at once against a receiver "
+             "draining through a 128 KB/s limit (upload/client-side, download/server-side): complete, identical, clean EOF. udpclose driver: Close() calls reaching the underlying work "
              "connection of real client udp/sudp proxies with and without a client-side limit. distinct = distinct case text; non-trivial = non-empty payload",
         assumptions=["cipher / compressor / transports are lawful codecs and reliable pipes (explicit hypotheses codec_lawful in C01_mirror_transparent; "
                      "satisfiable: C01_example_codecs)",
